@@ -130,6 +130,32 @@ int main(int argc, char **argv) {
         }, 600);
         if (f.died()) violation(key, "process died: " + fate_str(f) + " " + f.text.substr(0, 300));
     }
+    // two FILE handles open at the same time (cloud key to one, secret key set to the other, neither closed in between): the cloud file must still be
+    // exactly the cloud export.  The LWE dimension is chosen so that a multiple of 65536 (a typical stdio buffer size) falls between the two sizes.
+    for (int shape = 0; shape < 1; shape++) {   // (k=1 shapes never straddle a 64 KB boundary: every term of their size is a multiple of 16 KB)
+        std::string key = fmt("open-files/shape=%d", shape);
+        if (!take(key)) continue; if (deadline()) break; current(key);
+        Fate f = forked([&] {
+            PSet P = shape == 0 ? PSet{"open-k2", 0, 0, 2, 3, 8, 2, 2} : PSet{"open-k1", 0, 0, 1, 2, 10, 3, 2};
+            // sizes from the formula; text sections measured on a probe parameter set
+            for (int n = 8; n < 400; n++) { P.n = n; TFheGateBootstrappingParameterSet *ps = nullptr;
+                { LweParams *lp = new_LweParams(P.n, 1e-5, 0.01); TLweParams *tp = new_TLweParams(1024, P.k, 1e-9, 0.01); TGswParams *gp = new_TGswParams(P.l, P.Bgbit, tp); ps = new TFheGateBootstrappingParameterSet(P.t, P.basebit, lp, gp); }
+                std::ostringstream os; export_tfheGateBootstrappingParameterSet_toStream(os, ps); uint64_t text = os.str().size() + strlen("-----BEGIN LWEKSPARAMS-----\nbasebit:           1\nn:           1\nt:           1\n-----END LWEKSPARAMS-----\n");
+                uint64_t cloud = text + 12 + (uint64_t)P.k * 1024 * P.t * (1u << P.basebit) * (n + 1) * 4 + 12 + (uint64_t)n * (P.k + 1) * P.l * (P.k + 1) * 1024 * 4, secret = cloud + 8 + 4 * n + 4 * P.k * 1024;
+                if (cloud / 65536 == secret / 65536) continue;
+                TFheGateBootstrappingSecretKeySet *sk = nullptr; { TFheGateBootstrappingParameterSet *q = nullptr; sk = gen_keys(P, 3, q); ps = q; }
+                std::string wantc = bytes_of(false, nullptr, [&](std::ostream &o) { export_tfheGateBootstrappingCloudKeySet_toStream(o, &sk->cloud); }), wants = bytes_of(false, nullptr, [&](std::ostream &o) { export_tfheGateBootstrappingSecretKeySet_toStream(o, sk); });
+                FILE *F1 = tmpfile(), *F2 = tmpfile(); export_tfheGateBootstrappingCloudKeySet_toFile(F1, &sk->cloud); export_tfheGateBootstrappingSecretKeySet_toFile(F2, sk); fflush(F1); fflush(F2);
+                auto slurp = [](FILE *F) { std::string r; rewind(F); char buf[65536]; size_t q; while ((q = fread(buf, 1, sizeof buf, F)) > 0) r.append(buf, q); return r; };
+                std::string gotc = slurp(F1), gots = slurp(F2); fclose(F1); fclose(F2);
+                if (gotc != wantc) { size_t d = 0; while (d < gotc.size() && d < wantc.size() && gotc[d] == wantc[d]) d++; violation(key, fmt("cloud key written to a FILE while a second FILE was open: %zu bytes, differs from the cloud export at byte %zu of %zu (n=%d)", gotc.size(), d, wantc.size(), n)); }
+                else if (gots != wants) violation(key, "secret key set written to a second open FILE differs from its export");
+                else { std::vector<int32_t> ring(sk->tgsw_key->key[0].coefs, sk->tgsw_key->key[0].coefs + 1024); if (contains(gotc, std::string((const char *)ring.data(), 256))) violation(key, "ring key coefficients found in the cloud file"); }
+                eval(1); nontrivial(1); outcome(mix(n, shape)); return; }
+            violation(key, "no LWE dimension found for which a 64 KB boundary separates the two export sizes (harness)");
+        }, 600);
+        if (f.died()) violation(key, "process died: " + fate_str(f) + " " + f.text.substr(0, 300));
+    }
     sample("sequence/small-n8-k1-then-small-n9-k2: two key sets exported by one process (secret first, then cloud; FILE and stream), every cloud export audited");
     sample("cloud/default-128/seed=0/FILE: 113 MB export; length formula; strict prefix of the secret export; LWE key (630 bits) and ring key (1024 bits) searched in 8 encodings + 64-coefficient windows");
     sample("cloud/small-n9-k2/seed=0/stream: n=9, N=1024, k=2, l=3, Bgbit=7, t=3, basebit=3");
